@@ -553,7 +553,22 @@ def _eval_small(e: ast.AST, env: Dict[str, object]):
                 return False
             left = r
         return True
+    if isinstance(e, ast.Call) and isinstance(e.func, ast.Name) and e.func.id in ("all", "any") and "__quantified__" in env:
+        # a quantified sub-condition over the input (e.g. all lengths positive): a free boolean of the case under evaluation
+        return env["__quantified__"]
     raise ValueError(f"cannot evaluate {norm(e)}")
+
+
+def _eval_ok(conj, cov, covlen):
+    """is the call reachable with these coverage settings for some value of the quantified sub-conditions?"""
+    out = []
+    for q in (True, False):
+        env = {"subpath_constraints_coverage": cov, "subpath_constraints_coverage_length": covlen, "__quantified__": q}
+        try:
+            out.append(all(bool(_eval_small(p, env)) == pol for p, pol in conj))
+        except (KeyError, ValueError):
+            out.append(False)
+    return out
 
 
 def constraints_as_safe_sequences_rule(prog: Program, rep, RID: str) -> int:
@@ -580,15 +595,28 @@ def constraints_as_safe_sequences_rule(prog: Program, rep, RID: str) -> int:
                     if "subpath_constraints_coverage" in norm(p):
                         conj.append((p, pol))
             bad = None
+            reached_with_length_coverage = False
             for cov in (1, 0.5):
                 for covlen in (1, None, 0.5):
-                    env = {"subpath_constraints_coverage": cov, "subpath_constraints_coverage_length": covlen}
-                    try:
-                        reached = all(bool(_eval_small(p, env)) == pol for p, pol in conj)
-                    except (KeyError, ValueError) as ex:
-                        raise AnalysisError(f"AbstractPathModelDAG.{m.name}: cannot evaluate the coverage guard of the safe-sequence computation ({ex})")
-                    if reached and not (cov == 1 and covlen in (1, None)):
-                        bad = bad or (cov, covlen)
+                    for quantified in (True, False):
+                        env = {"subpath_constraints_coverage": cov, "subpath_constraints_coverage_length": covlen, "__quantified__": quantified}
+                        try:
+                            reached = all(bool(_eval_small(p, env)) == pol for p, pol in conj)
+                        except (KeyError, ValueError) as ex:
+                            raise AnalysisError(f"AbstractPathModelDAG.{m.name}: cannot evaluate the coverage guard of the safe-sequence computation ({ex})")
+                        if reached and not (cov == 1 and covlen in (1, None)):
+                            bad = bad or (cov, covlen)
+                        if reached and cov == 1 and covlen == 1 and not quantified:
+                            reached_with_length_coverage = True
+            # under full *length* coverage the coverage row sum(len_e * x_e) >= total never requires an edge of length 0: the constraints are safe
+            # sequences only if every constraint edge has positive length - a condition on the lengths has to stand in the guard
+            length_guard = any(isinstance(x, ast.Call) and isinstance(x.func, ast.Name) and x.func.id in ("all", "any") and "length_attr" in norm(x) and
+                               re.search(r"> ?0|!= ?0|>= ?1\b", norm(x)) for p, _pol in conj for x in ast.walk(p))
+            if bad is None and (reached_with_length_coverage or not length_guard) and any(_eval_ok(conj, 1, 1)):
+                rep.violation(RID, key + ":zero-length", "with subpath_constraints_coverage_length = 1 the subpath constraints are used as safe sequences whatever the lengths of "
+                              "their edges are: the coverage row sum(len_e * x_e) >= total never requires an edge of length 0, so such a constraint is not contained as a whole "
+                              "in one path of every solution (s->b len 5, b->c len 0, c->t, b->t with the constraint [(s,b),(b,c)]: error 10 / 15 reported where 0 is optimal)",
+                              m.loc(c))
             if bad:
                 rep.violation(RID, key, f"safe sequences are computed from the subpath constraints also when subpath_constraints_coverage = {bad[0]} and "
                               f"subpath_constraints_coverage_length = {bad[1]} (guard: `{' and '.join(('' if pol else 'not ') + norm(p) for p, pol in conj) or 'none'}`): a constraint "
@@ -598,4 +626,29 @@ def constraints_as_safe_sequences_rule(prog: Program, rep, RID: str) -> int:
                 rep.ok(RID, key, "computed only under full coverage in both metrics (coverage == 1, coverage_length in (1, None))", m.loc(c))
     if n == 0:
         raise AnalysisError("AbstractPathModelDAG: the computation of safe sequences from the subpath constraints was not found")
+    return n
+
+
+def constraint_edges_trusted_rule(prog: Program, rep, RID: str, cname: str = "kLeastAbsErrors") -> int:
+    """The edges of a fully covered subpath constraint are added to the trusted edges (they lie on a path of every solution).  Under full *length*
+    coverage that holds only for edges of positive length: the update has to filter them."""
+    f = prog.own_method(cname, "__init__")
+    n = 0
+    for c in calls_in(f.node):
+        if isinstance(c.func, ast.Attribute) and c.func.attr == "update" and "trusted_edges_for_safety" in norm(c.func.value) and c.args:
+            tests = [norm(t) for t, pol in enclosing_tests(f.node, c) if pol]
+            if not any("subpath_constraints_coverage_length == 1" in t for t in tests):
+                continue
+            n += 1
+            key = f"{cname}.__init__:constraint-edges-trusted"
+            arg = c.args[0]
+            filtered = isinstance(arg, (ast.GeneratorExp, ast.ListComp, ast.SetComp)) and any("length_attr" in norm(i) and re.search(r"> ?0|!= ?0", norm(i)) for g in arg.generators for i in g.ifs)
+            if filtered:
+                rep.ok(RID, key, "under length coverage only constraint edges of positive length are trusted", f.loc(c))
+            else:
+                rep.violation(RID, key, f"`{norm(c)[:80]}` trusts every edge of a constraint also under subpath_constraints_coverage_length = 1, although an edge of length 0 need "
+                              "not lie on the covering path: the safe sequences through it cut off the optimum (s->b len 5, b->c len 0, c->t, b->t, constraint [(s,b),(b,c)], "
+                              "superset [5]: error 15 where 0 is optimal)", f.loc(c))
+    if n == 0:
+        raise AnalysisError(f"{cname}.__init__: the update of the trusted edges with the constraint edges was not found")
     return n
